@@ -10,8 +10,8 @@ kernels is `HydroVerif.Generated.FlowDir.codes`, regenerated from `grid.py` on e
 below take the table as their first argument (`codes`), exactly as the kernels take `flowdircode`.
 
 Conventions: C `long long` is `Int`; a flow-direction grid is a function `fd : Int → Int` (`flowdir[idx]`)
-— every function here reads it only at cells that passed the validity guard, or that came out of the
-neighbour table (lemma `upstreamCells_congr` … in `Lemmas/C06.lean`); the driver supplies the array lookup.
+— by construction every function here reads it only at a cell that passed the validity guard or came out of
+the neighbour table as a value `≠ -1` (a valid cell: `neighbour_valid`); the driver supplies the array lookup.
 -/
 import HydroVerif.Num
 import HydroVerif.Model.C07
